@@ -56,6 +56,7 @@ def run_demo(demo: str, root: str) -> tuple[int, str]:
 
 
 def confirm(d: str) -> dict:
+    d = os.path.abspath(d)
     patch, demo = os.path.join(d, "patch.diff"), os.path.join(d, "demo.py")
     res: dict = {"dir": d}
     base = scratch_clone()
@@ -85,6 +86,7 @@ def confirm(d: str) -> dict:
 def check(d: str, props: list[str]) -> dict:
     from hwverif.cli import run_property
 
+    d = os.path.abspath(d)
     patch = os.path.join(d, "patch.diff")
     base = tempfile.mkdtemp(prefix="hwseedchk.", dir="/var/tmp")
     out: dict = {"dir": d, "results": {}}
